@@ -297,6 +297,65 @@ class WsgiRandom(Suite):
         return classify_wsgi(case)
 
 
+class WsgiBig(Suite):
+    """WSGI BoundedStream over bodies beyond the moderate range (64 KiB +- 1, 70 000, 140 001, 300 000 bytes; one single line
+    without a newline, lines of 100 / 9000 bytes, with and without a final newline) with pipelined bytes after the body,
+    Content-Length exact or shorter than what the server holds, full and short reads from wsgi.input; 14 operation
+    patterns over readline / readlines / iteration / read(n) / exhaust.  Same flat-buffer reference as wsgi_random."""
+
+    name = 'wsgi_big'
+    exhaustive = True
+    budget = {'quick': 1, 'thorough': 1}
+    OPS = [
+        [['readline', 'noarg'], ['readline', 'noarg'], ['read', 'noarg']],
+        [['iter_all']],
+        [['readlines', 'noarg']],
+        [['next'], ['next'], ['readlines', 64], ['read', -1]],
+        [['read', 100000], ['readline', 'noarg'], ['read', 'noarg']],
+        [['read', 3], ['exhaust'], ['read', 'noarg']],
+        [['readline', 100000], ['readline', -1], ['read', None]],
+        [['read', 65536], ['read', 1], ['readline', 'noarg'], ['exhaust']],
+        [['readline', 7], ['readline', 'noarg'], ['readline', 'noarg'], ['readline', 'noarg'], ['iter_all']],
+        [['exhaust'], ['readline', 'noarg']],
+        [['read', 64], ['readlines', 100000], ['read', 'noarg']],
+        [['read', 'noarg']],
+        [['next']] * 8 + [['read', 12], ['readline', 'noarg'], ['read', -1]],
+        [['readlines', 70000], ['readline', 'noarg'], ['read', -1]],
+    ]
+
+    def cases(self, tier):
+        sizes = (65535, 65536, 65537, 70000, 140001, 300000)
+        for size in (sizes if tier != 'quick' else (65537, 70000, 140001)):
+            for shape in ('one_line', 'lines100', 'lines9000'):
+                for final_nl in (False, True):
+                    for regime in ('exact', 'shorter'):
+                        for short in (None, [3, 0, 4]):
+                            for oi in range(len(self.OPS)):
+                                if short is not None and oi % 3:
+                                    continue
+                                yield {'size': size, 'shape': shape, 'final_nl': final_nl, 'regime': regime, 'short': short, 'ops': oi}
+
+    def run(self, case):
+        size = case['size']
+        if case['shape'] == 'one_line':
+            body = bytes(97 + i % 23 for i in range(size))
+        else:
+            n = 100 if case['shape'] == 'lines100' else 9000
+            body = b''.join(bytes(65 + (i + j) % 26 for j in range(n - 1)) + b'\n' for i in range(size // n + 1))[:size]
+        body = body[:-1] + (b'\n' if case['final_nl'] else b'z')
+        cl = len(body) if case['regime'] == 'exact' else len(body) - 5
+        full = {'data': body + b'PIPELINED\nNEXT REQUEST\n', 'content_length': cl, 'ops': [list(o) for o in self.OPS[case['ops']]],
+                'short': case['short'], 'cl_zeros': 0, 'extra_headers': []}
+        try:
+            run_wsgi(full)
+        except Violation as v:
+            d = v.detail
+            raise Violation(v.kind, '%s ... %s\n  compact case=%r ops=%r' % (d[:300], d[-300:], case, self.OPS[case['ops']]))
+        return Info(True, ['shape:' + case['shape'], 'cl:' + case['regime'], 'short_reads' if case['short'] else 'full_reads',
+                           'size:%s' % ('<=64K' if size <= 65536 else '>64K'), 'ops:%d' % case['ops']])
+
+
+
 # ---------------------------------------------------------------- ASGI
 
 
@@ -613,7 +672,7 @@ class AsgiRandom(Suite):
         return classify_asgi(case)
 
 
-SUITES = [WsgiEnum(), AsgiEnum(), WsgiRandom(), AsgiRandom()]
+SUITES = [WsgiEnum(), AsgiEnum(), WsgiRandom(), WsgiBig(), AsgiRandom()]
 
 
 def _known_f21(suite_name, case, violation):
